@@ -107,6 +107,14 @@ def install(ex: Explorer) -> None:
     def c_parse_pdu(I: Interp, raw: V, request: V) -> V:
         """C03: returns a response accepted for *this* request, or raises IllegalResponse."""
         I.prove("P-parse-is-for-this-request", z3.BoolVal(request is I.ghost["request"]))
+        # precondition of parse_pdu (C03 proves it for replies of at least one byte; on b"" it
+        # fails with an IndexError that is neither of the statement's outcomes): an empty read is
+        # "connection lost" and must have been mapped before
+        nonempty = models.seq_len(raw.t) >= 1 if isinstance(raw, VBytes) else z3.BoolVal(False)
+        if not I.prove("P-parse_pdu-is-called-with-a-non-empty-reply(empty-read-is-connection-"
+                       "loss)", nonempty):
+            from pyvc.engine import PathAbort
+            raise PathAbort()
         k = I.choose([z3.BoolVal(True)] * 6)
         if k == 4:
             e = VObj(E.RequestResponseMismatch, {"request": request, "args": VTuple([])})
